@@ -21,7 +21,8 @@ ID = "C01"
 ENGINE = "eqlmc-E1"
 RULE = ("cases = (condition tree, declaration style, surface form), enumerated exhaustively: all trees of depth<=d over "
         "the leaf vocabulary (distinct by construction, simplest first); a case is non-trivial when the expected "
-        "answer is neither empty nor the whole domain")
+        "answer is neither empty nor the whole domain"
+        ' Wave 7: domain shapes (empty / foreign / mixed members as list, tuple, generator, From), one negated leaf object, one and_/or_ object, one predicate call object used in several places, a comparison object in 3-4 places, a predicate parameter with a default.')
 ASSUMPTIONS = ["domain = grid dataset of 10 distinct objects (incl. a twin), attribute values non-falsy (falsy: C19)"]
 
 WSPEC = grid_world("D")
